@@ -81,8 +81,10 @@ def main():
         return 3
     dst = os.path.join(VERIF, "seeded", name)
     os.makedirs(dst, exist_ok=True)
-    open(os.path.join(dst, "patch.diff"), "w").write(newpatch)
-    shutil.copy(demo, os.path.join(dst, "demo.py"))
+    if newpatch.strip():
+        open(os.path.join(dst, "patch.diff"), "w").write(newpatch)
+    if os.path.abspath(demo) != os.path.abspath(os.path.join(dst, "demo.py")):
+        shutil.copy(demo, os.path.join(dst, "demo.py"))
     meta = {}
     if os.path.exists(os.path.join(src, "meta.json")):
         try:
